@@ -36,10 +36,15 @@ def sh(cmd, timeout=600, cwd=None, env=None):
 
 
 class Lock:
+    """exclusive while translating / building, shared while evaluating compiled models (checks may run in parallel)"""
+
+    def __init__(self, shared=False):
+        self.shared = shared
+
     def __enter__(self):
         os.makedirs(COQ, exist_ok=True)
-        self.f = open(os.path.join(COQ, '.lock'), 'w')
-        fcntl.flock(self.f, fcntl.LOCK_EX)
+        self.f = open(os.path.join(COQ, '.lock'), 'a')
+        fcntl.flock(self.f, fcntl.LOCK_SH if self.shared else fcntl.LOCK_EX)
         return self
 
     def __exit__(self, *a):
@@ -208,21 +213,22 @@ def run_cases(prop_id, name, imports, fn_expr, cases, shard=400, timeout=900, pr
     procs = []
     maxp = 14
     pending = list(files)
-    while pending or procs:
-        while pending and len(procs) < maxp:
-            fn = pending.pop(0)
-            p = subprocess.Popen(f'ulimit -s unlimited 2>/dev/null; timeout {timeout} coqc -Q . AV -w none .work/{prop_id}/{fn}',
-                                 shell=True, cwd=COQ, stdout=subprocess.PIPE, stderr=subprocess.STDOUT, text=True)
-            procs.append((fn, p))
-        fn, p = procs.pop(0)
-        out, _ = p.communicate()
-        m = re.search(r'@@BAD\s*\[([^\]]*)\]', out.replace('\n', ' '))
-        if p.returncode != 0 or not m:
-            errors.append((fn, out[-2000:]))
-        else:
-            body = m.group(1).strip()
-            if body:
-                bad.extend(int(x.strip().strip('()')) for x in body.split(';') if x.strip())
+    with Lock(shared=True):         # no rebuild of the compiled model (by a check running in parallel) while it is being evaluated
+        while pending or procs:
+            while pending and len(procs) < maxp:
+                fn = pending.pop(0)
+                p = subprocess.Popen(f'ulimit -s unlimited 2>/dev/null; timeout {timeout} coqc -Q . AV -w none .work/{prop_id}/{fn}',
+                                     shell=True, cwd=COQ, stdout=subprocess.PIPE, stderr=subprocess.STDOUT, text=True)
+                procs.append((fn, p))
+            fn, p = procs.pop(0)
+            out, _ = p.communicate()
+            m = re.search(r'@@BAD\s*\[([^\]]*)\]', out.replace('\n', ' '))
+            if p.returncode != 0 or not m:
+                errors.append((fn, out[-2000:]))
+            else:
+                body = m.group(1).strip()
+                if body:
+                    bad.extend(int(x.strip().strip('()')) for x in body.split(';') if x.strip())
     # clean large case files (keep on error for diagnosis)
     if not errors:
         for fn in files:
